@@ -6,6 +6,10 @@ From SK Require model.C06_Model model.C11_Model.
 From SK Require Import model.C03_Model model.C05_Model proof.C05_Proof proof.C05_Pipe.
 Import ListNotations.
 
+Section WithThr.
+Context {TH : Thr}.
+
+
 Section HostOrder.
   Variables A B : Type.
   Variable pn hn hn' : list N.
@@ -83,13 +87,13 @@ Qed.
 Lemma matches_all_unfold host pat :
   matches 0%N host pat =
   let it := monos_on' (host_c06 host) (pat_c06 pat) (node_ids (host_c06 host)) (node_ids (pat_c06 pat)) in
-  if (DEFAULT_THRESHOLD <? C06_Model.lenN it)%N then [] else it.
+  if (thr_val <? C06_Model.lenN it)%N then [] else it.
 Proof.
   unfold matches, C06_Model.find; simpl. unfold C06_Model.find_all.
-  rewrite all_loop_0 by (unfold DEFAULT_THRESHOLD; lia). simpl.
+  rewrite all_loop_0 by lia. simpl.
   set (it := monos_on' _ _ _ _).
   clearbody it. unfold mapping, C06_Model.mapping in *.
-  destruct (DEFAULT_THRESHOLD <? C06_Model.lenN it)%N eqn:E; [reflexivity|]. rewrite E. reflexivity.
+  destruct (thr_val <? C06_Model.lenN it)%N eqn:E; [match goal with |- context [if ?c then _ else _] => destruct c end; reflexivity|]. rewrite E. reflexivity.
 Qed.
 
 Lemma nodup_same_length {X} (l l' : list X) : NoDup l -> NoDup l' -> (forall x, In x l <-> In x l') -> length l = length l'.
@@ -116,7 +120,7 @@ Proof.
     - rewrite monos_on'_eq. apply monos_nodup. rewrite node_ids_host_c06. apply HS.
     - intros m. split; [apply Hone; exact HS | apply Hone; apply same_graph_sym; exact HS]. }
   intros m. rewrite !matches_all_unfold. cbv zeta. rewrite <- Hlen.
-  destruct (DEFAULT_THRESHOLD <? _)%N; [tauto|].
+  destruct (thr_val <? _)%N; [tauto|].
   split; [apply Hone; exact HS | apply Hone; apply same_graph_sym; exact HS].
 Qed.
 
@@ -149,3 +153,5 @@ Qed.
 
 Lemma run_c05_eq inv imp ex strats vs : run_c05 inv imp ex strats vs = tlist (t_variant inv imp ex strats) vs.
 Proof. unfold run_c05, tlist. f_equal. apply map_ext. intros v. apply t_variant_shared_eq. Qed.
+
+End WithThr.
